@@ -160,6 +160,34 @@ Theorem C09_cross_protocol_shift_noalt_refuted :
 Proof. exact cross_shift_noalt_refuted. Qed.
 Print Assumptions C09_cross_protocol_shift_noalt_refuted.
 
+(* ---------- binding strings ---------- *)
+
+(* The binding-string parser reads back what String() prints: for each of the 64 combinations of
+   Meta/Hyper/Super/Ctrl/Alt/Shift printed in String()'s order ([pre_b]), followed by a key name or a
+   rune without '+', MatchString is Matches on exactly that modifier mask ([mask_b]) and on the key the
+   name stands for ([name_target]: the rune itself, or the first keyNames entry equal under case folding). *)
+Theorem C09_binding_string_parse : forall (u : uni), lower_hyp u ->
+  forall (k : key) (b5 b4 b3 b2 b1 b0 : bool) (name : list Z),
+  noplus name = true -> name <> [] ->
+  match_string u k (pre_b b5 b4 b3 b2 b1 b0 ++ name) = matches u k (name_target u name) (mask_b b5 b4 b3 b2 b1 b0).
+Proof. exact match_string_printed_b. Qed.
+Print Assumptions C09_binding_string_parse.
+
+(* The chord the user pressed matches its own binding string: MatchString (String k) for every key event
+   in [sm_scope]: not a release (String drops the modifiers of a release), no Caps Lock (String upper-cases
+   the rune), any of the 256 masks otherwise, and a key that is a valid rune from '!' on other than '+' and
+   DEL, or a named key whose name leads back to it (all of keyNames except the finding
+   keyname-print-duplicate, see C09_name_unique_failures). *)
+Theorem C09_string_self_match : forall (u : uni), lower_hyp u -> fold_hyp u ->
+  forall k : key, sm_scope k = true -> match_string u k (key_string u k) = true.
+Proof. exact string_self_match. Qed.
+Print Assumptions C09_string_self_match.
+
+Theorem C09_name_unique_failures :
+  map fst (filter (fun kn => negb (name_unique (fst kn))) keyNames) = [KeyPrintScreen].
+Proof. exact name_unique_failures. Qed.
+Print Assumptions C09_name_unique_failures.
+
 (* ---------- non-vacuity ---------- *)
 Example C09_ex_sound : matches ascii_uni (mkKey [65] 97 65 0 1 0) 65 0 = true
                        /\ matches ascii_uni (mkKey [65] 97 65 0 1 0) 65 4 = false.
@@ -182,3 +210,10 @@ Example C09_ex_cross_hyps : upper_hyp ascii_uni /\ ascii_like ascii_uni.
 Proof. exact (conj ascii_uni_upper_hyp ascii_uni_like). Qed.
 Example C09_ex_cross_size : zlen both_expressible = 2181.
 Proof. vm_compute. reflexivity. Qed.
+Example C09_ex_string_hyps : lower_hyp ascii_uni /\ fold_hyp ascii_uni.
+Proof. exact (conj ascii_uni_lower_hyp ascii_uni_fold_hyp). Qed.
+Example C09_ex_string_scope :
+  sm_scope (mkKey [] KeyUp 0 0 (16 + 4 + 128) 0) = true /\
+  key_string ascii_uni (mkKey [] KeyUp 0 0 (16 + 4 + 128) 0) = [72; 121; 112; 101; 114; 43; 67; 116; 114; 108; 43; 85; 112] /\
+  sm_scope (mkKey [58] 59 58 0 1 0) = true /\ sm_scope (mkKey [] KeyPrintScreen 0 0 0 0) = false.
+Proof. vm_compute. repeat split; reflexivity. Qed.
